@@ -6,7 +6,7 @@ D=$1; S=$(basename $D); P=$(echo $S | cut -d- -f1)
 WT=/tmp/seed/$P
 export GOFLAGS=-mod=mod GOPROXY=off GOSUMDB=off GOTOOLCHAIN=local
 git -C /repo worktree remove --force $WT >/dev/null 2>&1; git -C /repo worktree add --detach $WT HEAD >/dev/null 2>&1 || { echo "$S worktree failed"; exit 9; }
-CMD=$(python3 -c "import json;print(json.load(open('$D/meta.json')).get('demo_cmd',''))" | sed "s#<goom-root>#$WT#g")
+CMD=$(python3 -c "import json;print(json.load(open('$D/meta.json')).get('demo_cmd',''))" | sed "s#<goom-root>#$WT#g; s#<goom>#$WT#g")
 place() {
   if ! echo "$CMD" | grep -q 'cp \|run.sh'; then
     tgt=$(echo "$CMD" | awk '{print $NF}'); case "$tgt" in ./*|.) ;; *) tgt=. ;; esac
